@@ -33,6 +33,11 @@ def main(tier, seed, replay=None):
     for i in range(n):
         c = gen_problem(rng, quant=(8 if i % 8 else None), family=(rng.choice(SCALABLE) if i % 6 == 5 else None))
         c["ops"] = [["wdata"]] + states.observe_at(rng, c, nsets=2) + [["wdata"]]
+        if i % 5 == 2 and c["meta"]["family"] in ("exp2c", "exp1l", "exp1", "exp3", "shared", "cosmix"):
+            # an update to parameters at which the model overflows (values +-inf / NaN, no error): no residuals may be shown for
+            # them — in particular not those of the previous parameters — and a good update afterwards gives a proper state again
+            bad = [hx(-1e-3 if c["meta"]["family"] in ("exp2c", "exp1l", "exp1") else -3000.0, c["scalar"])] * c["meta"]["P"]
+            c["ops"] = c["ops"][:-1] + [["set", bad]] + states.OBS + [["set", c["model"]["init"]]] + states.OBS + [["wdata"]]
         if i % 6 == 5:
             rescale_case(c)     # tiny absolute parameter values (other units): every update is below machine epsilon in absolute terms
         cases.append(c)
